@@ -226,12 +226,16 @@ func (f *File) Read(n int) (rt.Value, error) {
 			return rt.NilValue, err
 		}
 	}
-	b := make([]byte, n)
-	n, err := io.ReadFull(f.reader, b)
-	if err == nil || err == io.ErrUnexpectedEOF {
-		return rt.StringValue(string(b[:n])), nil
+	// Do not allocate n bytes upfront: n is chosen by the program and may be
+	// much bigger than what there is to read (or than what can be allocated).
+	b, err := ioutil.ReadAll(io.LimitReader(f.reader, int64(n)))
+	if err != nil {
+		return rt.NilValue, err
 	}
-	return rt.NilValue, err
+	if len(b) == 0 {
+		return rt.NilValue, io.EOF
+	}
+	return rt.StringValue(string(b)), nil
 }
 
 // ReadAll attempts to read the whole file and return a lua string containing
